@@ -28,7 +28,9 @@ def checks_for(seed):
 def one(seed):
     wt = tempfile.mkdtemp(prefix="mx-%s-" % seed, dir="/tmp")
     os.rmdir(wt)
-    subprocess.run(["git", "-C", "/repo", "worktree", "add", "-q", "--detach", wt, "HEAD"], check=True)
+    meta = json.load(open(os.path.join(V, "seeded", seed, "meta.json")))
+    base = meta.get("base", "HEAD") if "obsolete_after" in meta else "HEAD"
+    subprocess.run(["git", "-C", "/repo", "worktree", "add", "-q", "--detach", wt, base], check=True)
     res = {}
     try:
         subprocess.run(["git", "-C", wt, "apply", os.path.join(V, "seeded", seed, "patch.diff")], check=True)
